@@ -1268,6 +1268,7 @@ class HistoryProp(SimpleProp):
     def ops(self, tier, rng):
         n = 2500 if tier == "quick" else 250000
         self._twins = {}
+        self._pairs = []
         ops = []
         for _ in range(n):
             h, _ = gen_history(rng)
@@ -1277,6 +1278,23 @@ class HistoryProp(SimpleProp):
             nslots = sum(1 for o in h if o[0] == "N" or o[0] == "V")
             twin += ["Q%d" % i for i in range(nslots)]
             ops.append("H " + ";".join(twin))
+        # order pairs: two vectors that differ in one respect (version, one metric, one level) processed in both orders in
+        # separate histories; whatever is queried for either must not depend on the order (process-wide memo keyed too coarsely)
+        from . import vec
+        for _ in range(60 if tier == "quick" else 3000):
+            L = rng.below(3)
+            base = vec.rand_v3(rng, L, perm=False)
+            if rng.chance(2, 3):
+                base = base.replace("/S:U/", "/S:C/").replace("/C:N", "/C:H").replace("/I:N", "/I:H").replace("/C:L", "/C:H")
+            other = base.replace("CVSS:3.0", "CVSS:3.x").replace("CVSS:3.1", "CVSS:3.0").replace("CVSS:3.x", "CVSS:3.1")
+            lv = "BTE"[L]
+            a = ["N3" + lv, "D0," + core.hx(base), "Q0", "R0,en", "N3" + lv, "D1," + core.hx(other), "Q1", "R1,en", "Q0", "Q1"]
+            b = ["N3" + lv, "D0," + core.hx(other), "Q0", "R0,en", "N3" + lv, "D1," + core.hx(base), "Q1", "R1,en", "Q0", "Q1"]
+            # (each pair is followed by its twin so that the pairing by twos of judge_all stays intact)
+            for h in (a, b):
+                ops.append("H " + ";".join(h))
+                ops.append("H " + ";".join([o for o in h if o[0] in "ND"] + ["Q0", "Q1"]))
+            self._pairs.append(("H " + ";".join(a), "H " + ";".join(b)))
         return ops
 
     def cmp_op(self, op, line):
@@ -1304,6 +1322,17 @@ class HistoryProp(SimpleProp):
                                  "on what the process did before" % (key[4], key[1], key[0], first[0]), ops[k]))
                     break
         self.cross_classes = len(seen)
+        # order pairs, each history in a process of its own: the same vector must be answered the same in both orders
+        for a, b in getattr(self, "_pairs", []):
+            ga = core.run_sharded(core.HARNESS, [a], shards=1)[0].split(";")
+            gb = core.run_sharded(core.HARNESS, [b], shards=1)[0].split(";")
+            ka = dict(history_facts(a[2:].split(";"), ga)[1])
+            kb = dict(history_facts(b[2:].split(";"), gb)[1])
+            for key in ka:
+                if key in kb and ka[key] != kb[key]:
+                    msgs.append(("%s of the %s-level object decoded from one vector differs between two fresh processes that handled the "
+                                 "same two vectors in opposite orders" % (key[4], key[1]), a + "\n" + b))
+                    break
         for k in range(0, len(ops) - 1, 2):
             h = ops[k][2:].split(";")
             g = go[k].split(";")
